@@ -20,6 +20,7 @@ DECIDES += (' [ABSTRACT INTERPRETATION, exact] RT2: rotate on an abstract contai
 DECIDES += (' DG2 / DOM1: the rotation origin is evaluated at the start of the domain as the domain getter defines it; DC9: the object returned without inplace shares nothing with the argument; IV9: no transform edits the stored control points in place behind the setters.')
 
 INPLACE_FUNCS = ['operations.translate', 'operations.rotate', 'operations.scale', 'operations.transpose', 'operations.flip', 'operations.add_dimension']
+DECIDES += (' TR4: translate / scale on a real container of a B-spline and a rational curve, in place and on a copy: points moved exactly, weights kept, homogeneous points consistent, input untouched without inplace.')
 
 
 def site(fi, node=None):
